@@ -1,5 +1,5 @@
 From Coq Require Import ZArith List Bool.
-From V Require Import Calc.Calc2Defs Calc.Ctx2Proofs.
+From V Require Import Calc.Calc2Defs Calc.Ctx2Proofs Calc.Stop2Proofs.
 Import ListNotations.
 Import Calc2.
 Local Open Scope Z_scope.
@@ -64,6 +64,21 @@ Theorem C11_calc2_wsa_via_completes_on_ctx : forall id c s pre script,
   forall o n cx, In (XRoot o n cx) (r_tr (exec (wsa_via id c s) pre script)) -> cx = c.
 Proof. exact wsa_via_completes_on_ctx. Qed.
 Print Assumptions C11_calc2_wsa_via_completes_on_ctx.
+
+Theorem C11_calc2_wsa_via_root_sched : forall id s pre script,
+  ~ In id (map fst (scheds s)) -> no_ev_on id script ->
+  forall o n cx, In (XRoot o n cx) (r_tr (exec (wsa_via id (e_sched (root_env pre)) s) pre script)) ->
+                 cx = e_sched (root_env pre).
+Proof. exact wsa_via_root_sched. Qed.
+Print Assumptions C11_calc2_wsa_via_root_sched.
+
+(* ... and with the held result of s: the hop back is unstoppable (contrast C11_calc2_via_result, seen = true) *)
+Theorem C11_calc2_wsa_via_result : forall id c s pre s1 ns sa sb i o cx st tr oc hit,
+  r_st (run (wsa_via id c s) pre s1) = ONode ns sa sb ->
+  leafev (wsa_via id c s) (ONode ns sa sb) i o cx = (st, tr, Some oc, hit) ->
+  i = id /\ ph ns <> PFirst /\ (saved ns = Some oc \/ (saved ns = None /\ oc = OVal 0)).
+Proof. exact wsa_via_run_result. Qed.
+Print Assumptions C11_calc2_wsa_via_result.
 
 (* on(c, s): in the step that finds the operation pending (schedule(c)'s item not yet run) all leaves that
    are started - those s's start() starts inline - start on context c, that step is EvRun c, and they see
